@@ -96,6 +96,14 @@ func genEngine(t *rapid.T) Case {
 	c := Case{Kind: "engine", Sets: genEngineSets(t), Engine: &Engine{}}
 	e := c.Engine
 	e.ValLen = rapid.SampledFrom([]int{64, 200, 1000}).Draw(t, "vallen")
+	if rapid.IntRange(0, 4).Draw(t, "ecreated") == 0 {
+		e.Mode = "created"
+		e.PathForm = rapid.SampledFrom([]string{"absolute", "relative", "relative", "dot_relative", "unclean"}).Draw(t, "pathform")
+		e.PreFlush = rapid.Bool().Draw(t, "cpreflush")
+		e.Reopens = rapid.IntRange(1, 2).Draw(t, "creopens")
+		c.Sets = nil
+		return c
+	}
 	if rapid.Bool().Draw(t, "evalid") {
 		e.Mode = "valid"
 		e.Reopens = rapid.IntRange(1, 2).Draw(t, "reopens")
@@ -428,5 +436,94 @@ func runEngineInvalid(c *Case) *Fail {
 		tried++
 	}
 	ev.R().Count("engine_damaged_opens", tried)
+	return nil
+}
+
+// runEngineCreated: a database CREATED by the engine (no manifest stored
+// beforehand) through a path of the drawn form - absolute, relative to the
+// working directory ("reldb", "./reldb", "sub/../reldb") - is reopened through
+// the same path with what it was created with: the data written in the first
+// session is there, the manifest bytes are unchanged, and no file appears
+// outside <db>/MANIFEST, <db>/wal, <db>/sst.
+func runEngineCreated(c *Case) *Fail {
+	root, err := os.MkdirTemp("", "c20r-")
+	must(err)
+	defer os.RemoveAll(root)
+	form := c.Engine.PathForm
+	dbPath := filepath.Join(root, "reldb")
+	if form != "absolute" {
+		old, err := os.Getwd()
+		must(err)
+		must(os.Chdir(root))
+		defer func() { _ = os.Chdir(old) }()
+		switch form {
+		case "relative":
+			dbPath = "reldb"
+		case "dot_relative":
+			dbPath = "./reldb"
+		default: // unclean
+			must(os.Mkdir(filepath.Join(root, "sub"), 0o755))
+			dbPath = "sub/../reldb"
+		}
+	}
+	abs := filepath.Join(root, "reldb")
+	e, err := engine.NewEngineFacade(dbPath)
+	if err != nil {
+		return failf("engine/create-fails/"+form, "NewEngineFacade(%q) on a fresh path: %v", dbPath, err)
+	}
+	n := 3 + c.Engine.ValLen%5
+	for i := 0; i < n; i++ {
+		if err := e.Put([]byte(fmt.Sprintf("k%02d", i)), bytes.Repeat([]byte{byte('a' + i)}, c.Engine.ValLen)); err != nil {
+			closeQuiet(e)
+			return failf("engine/write-error", "Put: %v", err)
+		}
+	}
+	if c.Engine.PreFlush {
+		_ = e.FlushImMemTables()
+	}
+	closeQuiet(e)
+	ref, rerr := os.ReadFile(filepath.Join(abs, manifestName))
+	if rerr != nil {
+		return failf("engine/no-manifest-after-create/"+form, "after create+close: %v", rerr)
+	}
+	listing := func() string {
+		var bad []string
+		_ = filepath.Walk(root, func(p string, info os.FileInfo, err error) error {
+			if err != nil || info.IsDir() {
+				return nil
+			}
+			rel, _ := filepath.Rel(abs, p)
+			if rel == manifestName || strings.HasPrefix(rel, "wal"+string(filepath.Separator)) || strings.HasPrefix(rel, "sst"+string(filepath.Separator)) {
+				return nil
+			}
+			bad = append(bad, rel)
+			return nil
+		})
+		return strings.Join(bad, ", ")
+	}
+	if bad := listing(); bad != "" {
+		return failf("engine/file-outside-database-dirs/created/"+form, "after create+close files outside MANIFEST, wal/, sst/ of %q: %s", dbPath, bad)
+	}
+	for round := 0; round < max(c.Engine.Reopens, 1); round++ {
+		e, err = engine.NewEngineFacade(dbPath)
+		if err != nil {
+			return failf("engine/reopen-fails/"+form, "reopen %d of a database created through %q: %v", round, dbPath, err)
+		}
+		for i := 0; i < n; i++ {
+			v, gerr := e.Get([]byte(fmt.Sprintf("k%02d", i)))
+			if gerr != nil || len(v) != c.Engine.ValLen {
+				closeQuiet(e)
+				return failf("engine/reopened-with-other-configuration/"+form,
+					"database created through %q, reopen %d: key k%02d written in the first session reads %d bytes, err=%v (the engine did not come back on the directories it was created with)", dbPath, round, i, len(v), gerr)
+			}
+		}
+		closeQuiet(e)
+		if now, _ := os.ReadFile(filepath.Join(abs, manifestName)); !bytes.Equal(now, ref) {
+			return failf("engine/manifest-changed/created/"+form, "manifest bytes differ after reopen %d", round)
+		}
+		if bad := listing(); bad != "" {
+			return failf("engine/file-outside-database-dirs/reopened/"+form, "after reopen %d files outside MANIFEST, wal/, sst/ of %q: %s", round, dbPath, bad)
+		}
+	}
 	return nil
 }
